@@ -62,6 +62,8 @@ def run(chk: Check) -> None:
         return round((d - T0).total_seconds() / 60)
 
     found_classes: dict[str, int] = {}
+    TAINTED.clear()
+    LAST_VIEW.clear()
     lost_any = top_unknown = False
     aloop = asyncio.new_event_loop()
 
@@ -185,10 +187,12 @@ def run(chk: Check) -> None:
                             reported.add(ctl[i])
                             evs.append(f"E{i}:{ctl[i]}")
                             maps.append(_show(flog, stamp_to_k))
+                            LAST_VIEW[";".join(evs)] = maps[-1]
                         else:
                             flog._process_msg(msg_null(flog, i))
                             evs.append(f"N{i}")
                             maps.append(_show(flog, stamp_to_k))
+                            LAST_VIEW[";".join(evs)] = maps[-1]
                             break
                     # readthrough_exact: the view equals the controller's log over the range read
                     view = {i: stamp_to_k(dtm) for i, dtm in flog._map.items()}
@@ -206,6 +210,7 @@ def run(chk: Check) -> None:
                 ok_hist = False
                 break
             maps.append(_show(flog, stamp_to_k))
+            LAST_VIEW[";".join(evs)] = maps[-1]
             # ---- score the view after this event
             try:
                 view = flog.faultlog
@@ -235,6 +240,7 @@ def run(chk: Check) -> None:
             chk.sample({"events": evs, "final_view": maps[-1] if maps else ""})
     aloop.close()
     chk.extra["violation_classes_seen"] = found_classes
+    not_the_recorded_behaviour(chk)
     D.run()
 
 
@@ -242,9 +248,48 @@ def _show(flog, stamp_to_k) -> str:
     return ",".join(f"{i}:{stamp_to_k(d)}" for i, d in flog._map.items()) + "/" + ",".join(str(stamp_to_k(k)) for k in flog._log)
 
 
+TAINTED: list = []   # (kind, events at that point, what) of violations that fall into a recorded finding's class
+
+
 def _viol(chk: Check, seen: dict, kind: str, evs: list[str], what: str) -> None:
     seen[kind] = seen.get(kind, 0) + 1
+    if ".after-" in kind or kind.startswith("announce-shift.top-unknown"):
+        TAINTED.append((kind, list(evs), what))
     chk.violation(f"flog.{kind}", f"history {';'.join(evs)}: {what}", {"op": "flog.run", "events": list(evs)})
+
+
+def not_the_recorded_behaviour(chk: Check) -> None:
+    """A recorded finding is a specific behaviour: the one the Lean model of the present code exhibits (theorems
+    `duplicate_witness`, `announce_top_unknown_witness`).  A violation that falls into a recorded class is excused only if the
+    model, fed the same events, ends in the same (wrong) view; if the implementation's view differs from the model's, it
+    is some other defect and the history is reported as the failing input."""
+    from ..common import Model
+
+    if not TAINTED:
+        return
+    seen_hist = set()
+    todo = []
+    for kind, evs, what in TAINTED:
+        k = ";".join(evs)
+        if k in seen_hist or any(e.startswith("G") for e in evs):
+            continue
+        seen_hist.add(k)
+        todo.append((kind, evs, what))
+    todo = todo[:400]
+    outs = Model().run(["flog.run\t" + ";".join(evs) for _, evs, _ in todo])
+    for (kind, evs, what), out in zip(todo, outs):
+        parts = out.split("\t")
+        if parts[0] != "ok":
+            continue
+        model_last = parts[1].split("|")[-1] if parts[1] else ""
+        impl_last = LAST_VIEW.get(";".join(evs))
+        if impl_last is not None and impl_last != model_last:
+            chk.violation("flog.not-the-recorded-behaviour:" + kind.split(".")[0],
+                          f"history {';'.join(evs)}: {what}; and the view {impl_last} is not the one the recorded defect produces ({model_last})",
+                          {"op": "flog.run", "events": list(evs)})
+
+
+LAST_VIEW: dict = {}
 
 
 def replay(chk: Check, path: str) -> int:
